@@ -209,6 +209,30 @@ def site_from_records(a, b, e):
     return a.tolist() + [e], f['x'].values, False, [], []
 
 
+def site_frame_from_elements(a, b, e):
+    lst = a.tolist() + [e]
+    f = sf.Frame.from_elements(lst, columns=('x',))
+    return lst, f['x'].values, False, [], []
+
+
+def site_frame_from_element_items(a, b, e):
+    lst = [e] + a.tolist()
+    f = sf.Frame.from_element_items((((i, 'x'), v) for i, v in enumerate(lst)), index=range(len(lst)), columns=('x',), axis=1)
+    return lst, f['x'].values, False, [], []
+
+
+def site_frame_from_records_items(a, b, e):
+    lst = a.tolist() + [e]
+    f = sf.Frame.from_records_items(((i, (v,)) for i, v in enumerate(lst)), columns=('x',))
+    return lst, f['x'].values, False, [], []
+
+
+def site_series_from_items(a, b, e):
+    lst = a.tolist() + [e]
+    r = sf.Series.from_items(enumerate(lst))
+    return lst, r.values, False, [], []
+
+
 def site_series_from_list(a, b, e):
     lst = [e] + a.tolist()
     r = sf.Series(lst)
@@ -421,7 +445,7 @@ def main(ctx):
         ctx.exhaustive = True
     # ---- V: merge sites
     events = []
-    ELEM_SITES = ('row_iloc_object_number', 'row_loc_object_float', 'row_loc_cols_object_number', 'frame_fillna', 'frame_fillna_2d', 'reindex_fill', 'frame_reindex_both_fill', 'frame_reindex_disjoint_rows_fill', 'shift_fill', 'assign_elem', 'frame_assign_elem', 'frame_concat_cols_fill', 'from_records',
+    ELEM_SITES = ('row_iloc_object_number', 'row_loc_object_float', 'row_loc_cols_object_number', 'frame_fillna', 'frame_fillna_2d', 'reindex_fill', 'frame_reindex_both_fill', 'frame_reindex_disjoint_rows_fill', 'shift_fill', 'assign_elem', 'frame_assign_elem', 'frame_concat_cols_fill', 'from_records', 'frame_from_elements', 'frame_from_element_items', 'frame_from_records_items', 'series_from_items',
                   'series_from_list', 'series_from_list_rev', 'index_go_append', 'fillna')
 
     def emit(name, da, db, e):
